@@ -175,8 +175,9 @@ def _check(prog, rep):
             should = (c_res is True and c_s is False)
             seen.add(should)
             if should:
-                okk = len(evs) == 1 and evs[0][0] == "String::truncate" and \
-                    poly(evs[0][1][1]) == poly(("call", "String::len", (resv,))) - poly(("int", 1))
+                okk = len(evs) == 1 and ((evs[0][0] == "String::truncate" and
+                                          poly(evs[0][1][1]) == poly(("call", "String::len", (resv,))) - poly(("int", 1)))
+                                         or evs[0][0] == "String::pop")   # the last char is the 1-byte '\n'
                 r4.check(okk, "truncate", "the final newline is removed when s has none", "truncate(len - 1)",
                          "when the result ends with a newline and s does not, the result receives %s; expected truncate(len-1)"
                          % [(n, [D(x) for x in a[1:]]) for n, a in evs])
